@@ -133,25 +133,34 @@ def build_fs(args):
         flat += [cz.names[k]] * n
     forms, lists, lens = [], [], []
 
-    def rec(dd):
+    def rec(make):
+        # a construction that raises is an observation (a final state that is *not* the stated multiset), not a harness failure
+        try:
+            dd = make()
+        except Exception as e:  # noqa: BLE001
+            forms.append([["?raised " + type(e).__name__ + ": " + str(e)[:80], 1]])
+            lists.append(["?raised"])
+            lens.append(-1)
+            return
         forms.append(sorted([cz.rname(k), v] for k, v in dd.items() if v > 0))
         lists.append([cz.rname(x) for x in dd.to_list()])
         lens.append(len(dd))
     for _ in range(2):
         rng.shuffle(flat)
-        rec(DaughtersDict(" ".join(flat)))
-        rec(DaughtersDict(list(flat)))
-        rec(DaughtersDict(tuple(flat)))
+        fl = list(flat)
+        rec(lambda: DaughtersDict(" ".join(fl)))
+        rec(lambda: DaughtersDict(list(fl)))
+        rec(lambda: DaughtersDict(tuple(fl)))
         m = {}
-        for x in flat:
+        for x in fl:
             m[x] = m.get(x, 0) + 1
-        rec(DaughtersDict(m))
-        rec(DecayMode(0.5, " ".join(flat)).daughters)
-        rec(DecayMode.from_dict({"bf": 0.5, "fs": list(flat)}).daughters)
-        ids = [t["evt"][x]["id"] for x in flat]
-        rec(DecayMode.from_pdgids(0.5, ids).daughters)
-        rec(DecayMode.from_pdgids(0.5, tuple(ids)).daughters)
-        rec(DaughtersDict(m) + DaughtersDict())
+        rec(lambda: DaughtersDict(dict(m)))
+        rec(lambda: DecayMode(0.5, " ".join(fl)).daughters)
+        rec(lambda: DecayMode.from_dict({"bf": 0.5, "fs": list(fl)}).daughters)
+        ids = [t["evt"][x]["id"] for x in fl]
+        rec(lambda: DecayMode.from_pdgids(0.5, ids).daughters)
+        rec(lambda: DecayMode.from_pdgids(0.5, tuple(ids)).daughters)
+        rec(lambda: DaughtersDict(dict(m)) + DaughtersDict())
     return {"prop": "C11F", "cid": cid, "fs": bag, "rank": cz.rank, "obs": {"forms": forms, "lists": lists, "lens": lens},
             "names": cz.names}
 
